@@ -6,11 +6,12 @@ from hypothesis import strategies as st
 
 from gens import doc, mut, soup
 from refs import tree as rtree
-from vlib import env, hyp, par
+from vlib import env, guard, hyp, par
 from vlib.bucket import exc_bucket, exc_text
 from vlib.run import Part, h
 
 MODES = ["plain", "expand_all", "pre_expand"]
+PARSE_BOUND_S = 30.0
 
 # Template library for modes (b)/(c): bodies that emit structure.
 LIB = {
@@ -43,12 +44,17 @@ def check_one(ctx, text, mode):
 
     ctx.start_page("Test")
     try:
-        if mode == "plain":
-            root = ctx.parse(text)
-        elif mode == "expand_all":
-            root = ctx.parse(text, expand_all=True)
-        else:
-            root = ctx.parse(text, pre_expand=True)
+        kw = {"plain": {}, "expand_all": {"expand_all": True},
+              "pre_expand": {"pre_expand": True}}[mode]
+        # "total" includes "returns": a wall-clock bound with a margin of
+        # three to four orders of magnitude over the normal parse time
+        status, root, el = guard.call(ctx.parse, PARSE_BOUND_S, text, **kw)
+        if status == "timeout":
+            ctx.parser_stack = []
+            return ({"kind": "timeout", "mode": mode},
+                    f"parse() still running after {PARSE_BOUND_S:.0f} s")
+        if status == "exc":
+            raise root
     except RecursionError as e:
         # CPython's recursion limit, not the parser, decides beyond the
         # property's nesting bound of 100; only reported within the bound.
